@@ -1,6 +1,6 @@
 (* C16 -- Line endings and reserved control characters.  Property theorems only. *)
 From Rimu Require Import Base Regex RegexParse Str Types Tables Guards State Inline Block
-  Frame FrameBlock FrameInst OptionsLemmas MiscLemmas Lines RegexSem MatchLemmas Placeholder.
+  Frame FrameBlock FrameInst OptionsLemmas MiscLemmas Lines RegexSem MatchLemmas Placeholder Taint.
 
 (* the reader treats U+0000..U+0002 as blanks: a source and its blanked version give the same reader *)
 Theorem C16_blanked : forall text, mk_reader (blank_reserved text) = mk_reader text.
@@ -55,6 +55,18 @@ Theorem C16_placeholders_resolved : forall s n src, env_ok s -> rfree src ->
 Proof. exact placeholder_protocol. Qed.
 Print Assumptions C16_placeholders_resolved.
 
+(* ... and at the API: along every history of render calls from the initial session, with arbitrary sources, fuel and
+   option values whose HTML replacement text (when given) is free of U+0000..U+0002, no output contains any of them,
+   and the session invariant behind this (definitions, option text and pending attributes free of them) is kept *)
+Theorem C16_output_reserved_free : forall n h, Forall (fun so => opts_ok (snd so)) h -> Forall out_ok (fst (run n S0 h)).
+Proof. exact history_output_reserved_free. Qed.
+Print Assumptions C16_output_reserved_free.
+
+Theorem C16_render_reserved_free : forall n src o s, opts_ok o -> Sok s ->
+  match api_render n src o s with Ok (html, s') => rfree html /\ Sok s' | _ => True end.
+Proof. exact render_reserved_free. Qed.
+Print Assumptions C16_render_reserved_free.
+
 (* the shape of a quote match the protocol relies on: optional backslashes, a defined quote, the quoted text, the same quote *)
 Theorem C16_quote_match_shape : forall qs text m, match_spec (quotesRe qs) text m ->
   exists bs q body, m_groups m = [Some (bs ++ q ++ body ++ q); Some q; Some body] /\
@@ -70,6 +82,11 @@ Example C16_ex_protocol :
   match spans_render 20 (ienv_of (document_init S0)) $"a *b* `<i>` <joe@x.y> c" with
   | Ok (out, _) => str_eqb out $"a <em>b</em> <code>&lt;i&gt;</code> <a href=""mailto:joe@x.y"">joe@x.y</a> c"
   | _ => false end = true.
+Proof. vm_compute. reflexivity. Qed.
+
+Example C16_ex_out :
+  match api_render 40 [120; 0; 42; 97; 42; 1; 2; 121] (mkOpts PyNone (PyStr $"<x>") PyNone false) S0 with
+  | Ok (html, _) => str_eqb html $"<p>x <em>a</em>  y</p>" | _ => false end = true.
 Proof. vm_compute. reflexivity. Qed.
 
 Example C16_ex_lines : split_lines (encode [[97]; [98]; []; [99]] [TCRLF; TLF; TCR]) = [[97]; [98]; []; [99]].
